@@ -67,6 +67,16 @@ def disc_col(s, observed):
     return d[:, None]
 
 
+def disc_int(s, observed):
+    """Integer-typed discrepancy (e.g. a Hamming-like count): dtype int64."""
+    return np.abs(np.asarray(s, dtype=float) - observed[0]).reshape(len(s), -1).sum(axis=1).astype(np.int64)
+
+
+def disc_bool(s, observed):
+    """Boolean discrepancy: exact match or not."""
+    return np.abs(np.asarray(s, dtype=float) - observed[0]).reshape(len(s), -1).sum(axis=1) > 0.5
+
+
 def disc_abs(s, observed):
     return np.abs(np.asarray(s, dtype=float) - observed[0]).reshape(len(s), -1).sum(axis=1)
 
@@ -107,6 +117,12 @@ def build(kind, obs=2.0):
         Y = elfi.Simulator(sim_int_noise, t, model=m, name='Y', observed=np.array([obs]))
         S = elfi.Summary(ident, Y, model=m, name='S')
         elfi.Discrepancy(disc_col, S, model=m, name='d')
+        return m, 'd', ['S']
+    if kind in ('Mint', 'Mbool'):     # integer / boolean typed discrepancy
+        t = elfi.Prior('randint', 0, 5, model=m, name='t')
+        Y = elfi.Simulator(sim_int_noise, t, model=m, name='Y', observed=np.array([obs]))
+        S = elfi.Summary(ident, Y, model=m, name='S')
+        elfi.Discrepancy(disc_int if kind == 'Mint' else disc_bool, S, model=m, name='d')
         return m, 'd', ['S']
     if kind == 'Madapt':   # adaptive distance over two summaries of different scale
         t2 = elfi.Prior('uniform', 0, 4, model=m, name='zb')
